@@ -61,6 +61,37 @@ func (w *wrapW) Unwrap() http.ResponseWriter { return w.ResponseWriter }
 
 var rpCur *rpRecorder
 
+// a handler chain owned by the application (see op "sh"): two handlers in a slice with spare capacity
+var rpKeep []rux.HandlerFunc
+var rpKeepHits [2]int
+var rpKeepUsed bool
+
+func rpKeepReset() {
+	rpKeepUsed = false
+	rpKeep = make([]rux.HandlerFunc, 2, 8)
+	rpKeep[0] = func(*rux.Context) { rpKeepHits[0]++ }
+	rpKeep[1] = func(*rux.Context) { rpKeepHits[1]++ }
+}
+
+// rpKeepIntact: the kept chain still holds the application's two handlers
+func rpKeepIntact() (ok bool) {
+	defer func() {
+		if recover() != nil {
+			ok = false
+		}
+	}()
+	before := rpKeepHits
+	full := rpKeep[:cap(rpKeep)]
+	for i, h := range full {
+		if (h != nil) != (i < 2) {
+			return false
+		}
+	}
+	rpKeep[0](nil)
+	rpKeep[1](nil)
+	return rpKeepHits[0] == before[0]+1 && rpKeepHits[1] == before[1]+1
+}
+
 func dvalSx(v any) Sx {
 	if v == http.ErrAbortHandler {
 		return L(A("p"), I(lastSentinelPanic))
@@ -144,6 +175,13 @@ func rpRunOp(c *rux.Context, op Sx) {
 		if hj, ok := c.Resp.(http.Hijacker); ok {
 			_, _, _ = hj.Hijack()
 		}
+	case "mal": // the handler edits, in place, the allowed-methods list it was handed (the allowed[:0] filter idiom)
+		if al, ok := c.SafeGet(rux.CTXAllowedMethods).([]string); ok && len(al) > 0 {
+			al[0] = "MUTATED"
+		}
+	case "sh": // the handler installs a chain of its own that the application keeps (last op of a last handler: nothing runs after it)
+		c.SetHandlers(rpKeep)
+		rpKeepUsed = true
 	case "sd":
 		c.Set(op.List[1].Str(), op.List[2].Int())
 	case "ae":
@@ -474,8 +512,12 @@ func rpExec(c Sx) (out Sx) {
 			env.r.ServeHTTP(w, req)
 			return
 		}()
+		if rpKeepUsed && !rpKeepIntact() {
+			rpCur.trace = append(rpCur.trace, L(A("application-owned-handler-chain-overwritten")))
+		}
 		return L(A("req"), LS(append([]Sx{A("trace")}, rpCur.trace...)), LS(append([]Sx{A("log")}, w.log...)), L(A("esc"), esc)), rpCur.ctxPtr
 	}
+	rpKeepReset()
 	env, regPanicked := build()
 	if regPanicked {
 		return L(A("regpanic"))
